@@ -353,10 +353,36 @@
 ; ---- top-level representation invariant of a value (C06): payload constructor dictated by the type ----
 (define-fun unk_ptr ((v cty.Value)) Int (unbox<*cty.unknownType> (inner_v v)))
 (define-fun num_ptr ((v cty.Value)) Int (unbox<*math/big.Float> (inner_v v)))
+; the refinement object of an unknown value (C05): its kind matches the type, the bounds of a number
+; refinement are absent or plain known numbers, the length bounds of a collection refinement are ordered
+(define-fun nilval () cty.Value (mk.cty.Value (mk.cty.Type nil.Any) nil.Any))
+(define-fun bound_ok ((b cty.Value)) Bool
+  (or (= b nilval)
+      (and (is_number_ty (cty.Value.ty b)) ((_ is box<*math/big.Float>) (cty.Value.v b)) (not (= (unbox<*math/big.Float> (cty.Value.v b)) 0)))))
+(define-fun rnum_at ((p Int)) cty.refinementNumber (select F.cty.refinementNumber p))
+(define-fun rcoll_at ((p Int)) cty.refinementCollection (select F.cty.refinementCollection p))
+(define-fun rstr_at ((p Int)) cty.refinementString (select F.cty.refinementString p))
+(define-fun rnul_at ((p Int)) cty.refinementNullable (select F.cty.refinementNullable p))
+(define-fun tri_ok ((x Int)) Bool (or (= x 0) (= x 84) (= x 70)))
+(define-fun rfn_ok ((t cty.Type) (w Any)) Bool
+  (or (= w nil.Any)
+      (and ((_ is box<*cty.refinementNumber>) w) (is_number_ty t) (not (= (unbox<*cty.refinementNumber> w) 0))
+           (bound_ok (cty.refinementNumber.min (rnum_at (unbox<*cty.refinementNumber> w))))
+           (bound_ok (cty.refinementNumber.max (rnum_at (unbox<*cty.refinementNumber> w))))
+           (tri_ok (cty.refinementNullable.isNull (cty.refinementNumber.refinementNullable (rnum_at (unbox<*cty.refinementNumber> w))))))
+      (and ((_ is box<*cty.refinementString>) w) (is_string_ty t) (not (= (unbox<*cty.refinementString> w) 0))
+           (tri_ok (cty.refinementNullable.isNull (cty.refinementString.refinementNullable (rstr_at (unbox<*cty.refinementString> w))))))
+      (and ((_ is box<*cty.refinementCollection>) w) (is_coll_ty t) (not (= (unbox<*cty.refinementCollection> w) 0))
+           (<= 0 (cty.refinementCollection.minLen (rcoll_at (unbox<*cty.refinementCollection> w))))
+           (<= (cty.refinementCollection.minLen (rcoll_at (unbox<*cty.refinementCollection> w))) (cty.refinementCollection.maxLen (rcoll_at (unbox<*cty.refinementCollection> w))))
+           (tri_ok (cty.refinementNullable.isNull (cty.refinementCollection.refinementNullable (rcoll_at (unbox<*cty.refinementCollection> w))))))
+      (and ((_ is box<*cty.refinementNullable>) w) (not (= (unbox<*cty.refinementNullable> w) 0))
+           (tri_ok (cty.refinementNullable.isNull (rnul_at (unbox<*cty.refinementNullable> w)))))))
 (define-fun wf_payload ((v cty.Value)) Bool
   (let ((t (vty v)) (u (inner_v v)))
     (or (= u nil.Any)
-        (and ((_ is box<*cty.unknownType>) u) (not (= (unbox<*cty.unknownType> u) 0)))
+        (and ((_ is box<*cty.unknownType>) u) (not (= (unbox<*cty.unknownType> u) 0))
+             (rfn_ok t (cty.unknownType.refinement (select F.cty.unknownType (unbox<*cty.unknownType> u)))))
         (and (is_bool_ty t) ((_ is box<bool>) u))
         (and (is_number_ty t) ((_ is box<*math/big.Float>) u) (not (= (unbox<*math/big.Float> u) 0)))
         (and (is_string_ty t) ((_ is box<string>) u))
@@ -366,13 +392,17 @@
         (and (is_obj_ty t) ((_ is box<map<string>Any>) u) (not (= (unbox<map<string>Any> u) 0)) (MapC<String~Any>.ok (select F.MapC<String~Any> (unbox<map<string>Any> u)))
              (= (MapC<String~Any>.dom (select F.MapC<String~Any> (unbox<map<string>Any> u))) (obj_dom t)))
         (and (is_set_ty t) ((_ is box<set.Set<Any>>) u))
-        (and (is_capsule_ty t) (not ((_ is box<cty.marker>) u))))))
+        (and (is_capsule_ty t) (not ((_ is box<cty.marker>) u)) (not ((_ is box<*cty.unknownType>) u))))))
 (define-fun wf_val ((v cty.Value)) Bool (and (wf_marks v) (wf_ty (vty v)) (wf_payload v)))
 (define-fun pl_seq_at ((v cty.Value) (i Int)) Any (select (select F.Arr<Any> (Slice.ptr (pl_seq v))) (+ (Slice.off (pl_seq v)) i)))
 (define-fun pl_mapc ((v cty.Value)) MapC<String~Any> (select F.MapC<String~Any> (pl_map v)))
 ; math/big.Float as seen by the code: uninterpreted observations of the (frozen) number object
 (declare-fun bf.int64 (math/big.Float) Int)   ; result of Int64()
 (declare-fun bf.acc64 (math/big.Float) Int)   ; accuracy of Int64(): 0 = Exact, -1 = Below, 1 = Above
+(declare-fun bf.uint64 (math/big.Float) Int)
+(declare-fun bf.accu64 (math/big.Float) Int)
+(declare-fun bf.f64 (math/big.Float) F64)
+(declare-fun bf.accf64 (math/big.Float) Int)
 (define-fun bf_of ((v cty.Value)) math/big.Float (select F.math/big.Float (num_ptr v)))
 ; a known, non-null number that is a non-negative integer fitting int64
 (define-fun is_index_num ((v cty.Value)) Bool (and (= (bf.acc64 (bf_of v)) 0) (>= (bf.int64 (bf_of v)) 0)))
@@ -439,10 +469,6 @@
 (declare-fun rv_type (reflect.Value) Any)
 (declare-fun rv_kind (reflect.Value) Int)
 (declare-fun rt_bits (Any) Int)
-(declare-fun bf.uint64 (math/big.Float) Int)
-(declare-fun bf.accu64 (math/big.Float) Int)
-(declare-fun bf.f64 (math/big.Float) F64)
-(declare-fun bf.accf64 (math/big.Float) Int)
 (define-fun int_min ((bits Int)) Int (ite (= bits 8) (- 128) (ite (= bits 16) (- 32768) (ite (= bits 32) (- 2147483648) (- 9223372036854775808)))))
 (define-fun int_max ((bits Int)) Int (ite (= bits 8) 127 (ite (= bits 16) 32767 (ite (= bits 32) 2147483647 9223372036854775807))))
 (define-fun uint_max ((bits Int)) Int (ite (= bits 8) 255 (ite (= bits 16) 65535 (ite (= bits 32) 4294967295 18446744073709551615))))
@@ -481,6 +507,11 @@
 (assert (forall ((p Int) (q Int) (a Real)) (! (=> (>= q p) (= (rnd q (rnd p a)) (rnd p a))) :pattern ((rnd q (rnd p a))))))
 ; the smallest precision that represents the value exactly (MinPrec)
 (declare-fun bf.minprec (math/big.Float) Int)
+; two number objects with the same observable content (Copy)
+(define-fun bf_same ((a math/big.Float) (b math/big.Float)) Bool
+  (and (= (bf.val a) (bf.val b)) (= (bf.inf a) (bf.inf b)) (= (bf.prec a) (bf.prec b)) (= (bf.negzero a) (bf.negzero b))
+       (= (bf.int64 a) (bf.int64 b)) (= (bf.acc64 a) (bf.acc64 b)) (= (bf.uint64 a) (bf.uint64 b)) (= (bf.accu64 a) (bf.accu64 b))
+       (= (bf.f64 a) (bf.f64 b)) (= (bf.accf64 a) (bf.accf64 b)) (= (bf.minprec a) (bf.minprec b))))
 ; numbers as values
 (define-fun num_i ((v cty.Value)) Int (bf.inf (bf_of v)))
 (define-fun num_r ((v cty.Value)) Real (bf.val (bf_of v)))
@@ -488,3 +519,36 @@
 (define-fun isnum ((v cty.Value)) Bool (and (is_number_ty (vty v)) (kn v)))
 ; ghost: "this refiner only states numeric bounds" (established by numericRangeArithmetic, assumed)
 (declare-fun rf_numeric (Func) Bool)
+
+; ---- ranges of unknown numbers (C01, C05) ----------------------------------------------------------
+(define-fun rfn_of ((v cty.Value)) Any (cty.unknownType.refinement (select F.cty.unknownType (unk_ptr v))))
+; the null-ness recorded in a refinement object (0 unknown, 84 'T', 70 'F'); 0 for "no refinement"
+(define-fun rfn_null ((w Any)) Int
+  (ite ((_ is box<*cty.refinementNumber>) w) (cty.refinementNullable.isNull (cty.refinementNumber.refinementNullable (rnum_at (unbox<*cty.refinementNumber> w))))
+  (ite ((_ is box<*cty.refinementString>) w) (cty.refinementNullable.isNull (cty.refinementString.refinementNullable (rstr_at (unbox<*cty.refinementString> w))))
+  (ite ((_ is box<*cty.refinementCollection>) w) (cty.refinementNullable.isNull (cty.refinementCollection.refinementNullable (rcoll_at (unbox<*cty.refinementCollection> w))))
+  (ite ((_ is box<*cty.refinementNullable>) w) (cty.refinementNullable.isNull (rnul_at (unbox<*cty.refinementNullable> w))) 0)))))
+(define-fun bound_set ((b cty.Value)) Bool (and (not (= b nilval)) (is_known b)))
+(define-fun rn_lo_ok ((r cty.refinementNumber) (ci Int) (cr Real)) Bool
+  (=> (bound_set (cty.refinementNumber.min r))
+      (ite (cty.refinementNumber.minInc r)
+           (x_le (num_i (cty.refinementNumber.min r)) (num_r (cty.refinementNumber.min r)) ci cr)
+           (x_lt (num_i (cty.refinementNumber.min r)) (num_r (cty.refinementNumber.min r)) ci cr))))
+(define-fun rn_hi_ok ((r cty.refinementNumber) (ci Int) (cr Real)) Bool
+  (=> (bound_set (cty.refinementNumber.max r))
+      (ite (cty.refinementNumber.maxInc r)
+           (x_le ci cr (num_i (cty.refinementNumber.max r)) (num_r (cty.refinementNumber.max r)))
+           (x_lt ci cr (num_i (cty.refinementNumber.max r)) (num_r (cty.refinementNumber.max r))))))
+; the refinement object w admits the number (ci, cr)
+(define-fun rfn_admits_num ((w Any) (ci Int) (cr Real)) Bool
+  (=> ((_ is box<*cty.refinementNumber>) w)
+      (and (rn_lo_ok (rnum_at (unbox<*cty.refinementNumber> w)) ci cr) (rn_hi_ok (rnum_at (unbox<*cty.refinementNumber> w)) ci cr))))
+; the (unmarked view of the) number-typed value v may stand for the non-null number (ci, cr):
+; a known value only for itself, an unknown one for whatever its refinement admits
+(define-fun num_admits ((v cty.Value) (ci Int) (cr Real)) Bool
+  (and (<= (- 1) ci) (<= ci 1)
+       (ite (is_known v) (and (not (is_null v)) (= ci (num_i v)) (=> (= ci 0) (= cr (num_r v))))
+            (rfn_admits_num (rfn_of v) ci cr))))
+; ranges (cty.ValueRange)
+(define-fun vr_ty ((r cty.ValueRange)) cty.Type (cty.ValueRange.ty r))
+(define-fun vr_raw ((r cty.ValueRange)) Any (cty.ValueRange.raw r))
